@@ -138,9 +138,14 @@ class Helper:
                         return False
         if self.is_method and not self.params:
             return False
+        self.generator = False
         for x in _body_nodes(self.body):
-            if isinstance(x, (ast.Yield, ast.YieldFrom, ast.Await, ast.Global, ast.Nonlocal, ast.Match)):
+            if isinstance(x, (ast.Await, ast.Global, ast.Nonlocal, ast.Match)):
                 return False
+            if isinstance(x, (ast.Yield, ast.YieldFrom)):
+                self.generator = True
+        if self.generator and any(isinstance(x, ast.Return) and x.value is not None for x in _body_nodes(self.body)):
+            return False  # a generator that returns a value: `yield from` would have to deliver it
         for x in ast.walk(n):
             if (isinstance(x, ast.Name) and x.id == self.name) or (isinstance(x, ast.Attribute) and x.attr == self.name):
                 return False  # recursive
@@ -568,6 +573,17 @@ class Inliner:
         if getattr(call, "_no_inline", False):
             return None
         names = ctx["names"]
+        if getattr(h, "generator", False):
+            # `yield from helper(..)` as a statement: the helper's yields are the caller's yields (a bare `return` ends the delegation only,
+            # so it is accepted only as the helper's last statement)
+            if not (isinstance(st, ast.Expr) and isinstance(st.value, ast.YieldFrom) and st.value.value is call):
+                raise Unsupported("generator helper outside `yield from`")
+            pro, body = self._expand_body(h, call, recv, names, dead=self._dead_after(call, ctx))
+            if any(isinstance(x, ast.Return) for b_ in body[:-1] for x in _body_nodes([b_])) or (body and isinstance(body[-1], ast.Return) is False and any(isinstance(x, ast.Return) for x in _body_nodes([body[-1]]))):
+                raise Unsupported("early return in a generator helper")
+            if body and isinstance(body[-1], ast.Return):
+                body = body[:-1]
+            return "replace", self._fix(pro + body, call) or [ast.copy_location(ast.Pass(), st)]
         expr = h.expression()
         if expr is not None:
             try:
